@@ -259,7 +259,9 @@ class TraverserVisitor:
             accept(o.analyzed, self)
 
     def visit_type_application(self, o: TypeApplication) -> None:
-        accept(o.expr, self)
+        # `o.expr` is the same node as the `base` of the index expression this
+        # node is attached to (as `analyzed`), which has been visited already.
+        pass
 
     def visit_lambda_expr(self, o: LambdaExpr) -> None:
         self.visit_func(o)
@@ -374,7 +376,9 @@ class TraverserVisitor:
         if o.metaclass:
             accept(o.metaclass, self)
         for v in o.keywords.values():
-            accept(v, self)
+            # Mypy stores the metaclass expression in the keywords as well
+            if v is not o.metaclass:
+                accept(v, self)
         accept(o.defs, self)
         if o.analyzed:
             accept(o.analyzed, self)
